@@ -24,7 +24,7 @@ import (
 
 type boardStats struct {
 	FollowerReads, ConcurrentReads, ContentsCompared                                                int
-	SameHandleHistories, SizeTargetsHit                                                             int
+	SameHandleHistories, SizeTargetsHit, HugeSends                                                  int
 	Ops, Histories, Sends, Reads, MaxWriters, DistinctSizes, ProcessHistories, DefaultLockHistories int
 	OutcomeHist                                                                                     map[string]int
 	Monitors                                                                                        []string
@@ -662,6 +662,41 @@ func runBoardDiff(outDir string, seed int64, tier string) {
 					st.Reads++
 					if err != nil || len(msgs) != len(es)-k {
 						st.Monitors = append(st.Monitors, fmt.Sprintf("C16 read_suffix: sized history %d: GetMessages(%d) returned %d entries (err %v), the log has %d from there on", h, k, len(msgs), err, len(es)-k))
+					}
+				}
+			}()
+		}
+		// a message no reader accepts: whoever may post to the board may post a message of 1 MiB or more through the ordinary Send.
+		// Either Send refuses it, or the board must stay readable: a board that every GetMessages fails on ends every node's
+		// Poll loop (the daemon exits, and exits again after every restart: the offset never gets past that line)
+		if h%7 == 2 {
+			func() {
+				path5 := filepath.Join(dir, "huge.txt")
+				lock5 := filepath.Join(dir, "huge.lock")
+				w, err := file_storage.NewFileStorage(path5, lock5)
+				if err != nil {
+					return
+				}
+				defer w.Close()
+				rd, err := file_storage.NewFileStorage(path5, lock5)
+				if err != nil {
+					return
+				}
+				defer rd.Close()
+				small := func(k int) storage.Message {
+					return storage.Message{DkgRoundID: "huge", Event: fmt.Sprintf("g%d-%d", h, k), Data: []byte("small")}
+				}
+				if err := w.Send(small(0)); err != nil {
+					return
+				}
+				for _, size := range []int{1<<20 - 100, 1 << 20, 1<<20 + 4096} {
+					big := storage.Message{DkgRoundID: "huge", Event: fmt.Sprintf("big-%d", size), Data: bytes.Repeat([]byte{'B'}, size*3/4)}
+					errSend := w.Send(big)
+					_ = w.Send(small(size))
+					st.HugeSends++
+					if _, err := rd.GetMessages(0); err != nil && errSend == nil {
+						st.Monitors = append(st.Monitors, fmt.Sprintf("C18 board_stays_readable: huge history %d: Send accepted a message of about %d bytes (a line of %d bytes or more), and since then GetMessages fails for every reader at every offset (%s): every node's Poll loop ends on it, again after every restart", h, size, size, truncate(err.Error(), 100)))
+						return
 					}
 				}
 			}()
